@@ -62,6 +62,10 @@ class Gen:
             self.FIELDS, self.VARS, self.OPTS = FIELDS, ["v0", "V0", "v1"], OPTS
         else:
             self.TABLES, self.NICKS, self.FIELDS, self.VARS, self.OPTS = TABLES, NICKS, FIELDS, VARS, OPTS
+            if rng.random() < self.w.get("hidden_nick", 0.0):
+                # a NICKNAME that starts with two underscores hides nothing: hidden are tables and fields
+                self.features.add("hidden_looking_nickname")
+                self.NICKS = ["__nk", "__nk", "aa", "bb"]
 
     def p(self, k):
         return self.rng.random() < self.w[k]
